@@ -10,6 +10,8 @@ CHECKS = {
  'C01': (REGION, "Theorem C01_region (all inputs, outputs, every real point): a pair accepted by the extracted checker satisfies the property at every point farther than 2 from the input edges; per-run certification of the implementation's outputs on generated + corpus inputs.", "4.1", "coq-region"),
  'C02': (REGION, "Theorem C02_canonical: accepted outputs have winding 0 or s at every real point farther than 2 from their edges; corollaries for the three readings and re-union; syntactic half decided directly on every output.", "4.2", "coq-region"),
  'C06': (REGION, "Theorem C06_rect: accepted (input, output, rectangle) triples have output winding = input winding inside and 0 outside the rectangle at every real point away from the band; vertex bound, inside-unchanged, outside-vanishes and the driver decided directly.", "4.6", "coq-region"),
+ 'C08': (K1 + "; " + REGION, "Theorems C08_total/C08_count/C08_quads_closed/C08_quads_positive about the faithful model of minkowskiInternal (all inputs); C08_region: accepted results equal the union of the swept parallelograms at every real point farther than 2 from every parallelogram edge; canonical form and sum(A,B)=sum(B,A) certified likewise. PARTIAL near interior parallelogram edges (DESIGN 4.8).", "4.8", "coq-region"),
+ 'C14': (K1, "Theorems C14_* for all inputs within 2^29: Area64/IsPositive64 exact when the doubled area is below 2^63 (and machine-checked refutation beyond), GetBounds64 exact, 128-bit product exact, isCollinear exact except when a coordinate difference is 1 (refutations proved), CrossProduct sign exact, PointInPolygon total and equal to the exact even-odd specification on an exhaustively enumerated scope (partial beyond, tied by correspondence).", "4.14", "coq-k1"),
  'C15': (K1, "Theorems C15_* about Model/Trim.v for all paths (totality, sub-sequence, open ends, removed-only-collinear, area preservation for sound predicates) and machine-checked refutations of the clauses that are false (idempotence, no collinear triple, >= 3 vertices); model tied to the code by exact comparison incl. all paths <= 4 points on the 3x3 lattice.", "4.15", "coq-k1"),
  'C17': (REGION, "Respelling invariance of the specification proved for all path sets and real points (C17_permute_paths ... C17_translate); outputs of respelt inputs certified region-equal by the proved checker (C17_same_region); determinism observed by double calls.", "4.17", "coq-region"),
  'C19': (REGION, "Theorem C19_identities: the five outputs accepted by the checker satisfy the set identities at every real point away from the input edges; C19_from_C01 (Boolean algebra); exact integer area identities and the wrapper clause decided directly.", "4.19", "coq-region"),
